@@ -79,6 +79,7 @@ class Normaliser:
         self.n_eff = 0
         self.work = 0
         self.sunk = False
+        self.in_try = 0      # > 0 while the body of a try with handlers is being walked: evaluating an expression there may be the point
         self.decided: Dict[str, bool] = {}   # path condition: key of a test's positive core (tkey) -> its value on the current path
         self._tkeys: Dict[str, tuple] = {}
         self._inval: List[str] = []          # keys dropped from `decided` because something they mention changed
@@ -835,6 +836,8 @@ class Normaliser:
             if nm in self.captured or nm in self.mutated or not pure or is_var:
                 self.bind_var(nm, value, env, eff)
             else:
+                if self.in_try and _may_raise(value):
+                    eff.extend(self.emit("eval", [value], lambda fs: ("eval", fs[0])))   # in a try body the evaluation itself matters (it may be what raises)
                 env[nm] = value
             return
         if isinstance(target, (ast.Tuple, ast.List)):
@@ -1078,7 +1081,11 @@ class Normaliser:
                         continue   # bound and read inside one part of the try only: an ordinary temporary of that part
                     self.to_variable(nm, env, eff)
                 prev_sunk = self.sunk
-                eb, _ = self.block(s.body, dict(env), ())
+                self.in_try += 1 if s.handlers else 0
+                try:
+                    eb, _ = self.block(s.body, dict(env), ())
+                finally:
+                    self.in_try -= 1 if s.handlers else 0
                 hs = []
                 for h in s.handlers:
                     e2 = dict(env)
@@ -1187,6 +1194,8 @@ class Normaliser:
             return self.mk_if(t, ea, eb), env, True
         same_env = enva.keys() == envb.keys() and all(enva[k] is envb[k] or ast.dump(enva[k]) == ast.dump(envb[k]) for k in enva)
         if ea == eb and same_env:
+            if self.in_try and _may_raise(test):
+                return self.emit("eval", [test], lambda fs: ("eval", fs[0])) + ea, enva, False
             return ea, enva, False
         if same_env:
             return self.mk_if(t, ea, eb), enva, False
@@ -2093,7 +2102,71 @@ def normal_form(fn, consts=None, helpers=None, methods=None):
            defaults, tuple(nz.exo(d, {}) for d in fn.decorator_list))
     eff, _ = nz.block(_body(fn), {}, ())
     is_gen = any(isinstance(x, (ast.Yield, ast.YieldFrom)) for x in ast.walk(fn))
-    return (sig, _renumber(_drop_dead_binds(tuple(strip_tail(eff, "return")) if not is_gen else tuple(eff))))
+    return (sig, _renumber(_prune_evals(_drop_dead_binds(tuple(strip_tail(eff, "return")) if not is_gen else tuple(eff)))))
+
+
+def _may_raise(e) -> bool:
+    """anything but names, constants and displays of them"""
+    return any(not isinstance(x, (ast.Name, ast.Constant, ast.Tuple, ast.List, ast.Load, ast.Store, ast.expr_context)) for x in ast.walk(e))
+
+
+def _evaluates(form, e) -> bool:
+    """does evaluating `form` always evaluate the sub-form `e`? (conditional arms, later operands of and/or, comprehension bodies do not count)"""
+    if form == e:
+        return True
+    if not isinstance(form, tuple) or not form:
+        return False
+    h = form[0]
+    if h == "ifexp":
+        return _evaluates(form[1], e)
+    if h == "bool":
+        return bool(form[2]) and _evaluates(form[2][0], e)
+    if h == "comp":
+        gens = form[-1]
+        return bool(gens) and isinstance(gens[0], tuple) and len(gens[0]) >= 2 and _evaluates(gens[0][1], e)
+    if h == "lambda":
+        return False
+    return any(_evaluates(y, e) for y in form if isinstance(y, tuple))
+
+
+def _effect_evaluates(eff, e) -> bool:
+    k = eff[0]
+    if k in ("do", "return", "raise", "yield", "yieldfrom", "eval"):
+        return _evaluates(eff[1], e)
+    if k in ("bind", "store"):
+        return _evaluates(eff[1], e) or _evaluates(eff[2], e)
+    if k in ("if", "while"):
+        return _evaluates(eff[1], e)
+    if k == "for":
+        return _evaluates(eff[2], e)
+    return False
+
+
+def _prune_evals(effs):
+    """('eval', e) directly followed (other evals aside) by an effect that always evaluates e says nothing new"""
+    def rec(x):
+        if not isinstance(x, tuple):
+            return x
+        x = tuple(rec(y) for y in x)
+        if x and all(isinstance(y, tuple) and y and isinstance(y[0], str) for y in x) and any(y[0] == "eval" for y in x):
+            out = []
+            for i, y in enumerate(x):
+                if y[0] == "eval":
+                    j = i + 1
+                    covered = False
+                    while j < len(x):
+                        if _effect_evaluates(x[j], y[1]):
+                            covered = True
+                            break
+                        if x[j][0] != "eval":
+                            break
+                        j += 1
+                    if covered:
+                        continue
+                out.append(y)
+            x = tuple(out)
+        return x
+    return rec(effs)
 
 
 def _form_pure(x) -> bool:
@@ -2142,13 +2215,21 @@ def _drop_dead_binds(effs):
         if not dead:
             return effs
 
-        def strip(x):
+        def strip(x, in_try=False):
             if isinstance(x, tuple):
                 if x and all(isinstance(y, tuple) for y in x) and any(len(y) == 3 and y[0] == "bind" for y in x if y):
-                    x = tuple(y for y in x if not (len(y) == 3 and y[0] == "bind" and isinstance(y[1], tuple) and y[1][0] == "v" and y[1][1] in dead))
-                out = tuple(strip(y) for y in x)
+                    is_dead = lambda y: len(y) == 3 and y[0] == "bind" and isinstance(y[1], tuple) and y[1][0] == "v" and y[1][1] in dead   # noqa: E731
+                    if in_try:
+                        x = tuple(("eval", y[2]) if is_dead(y) else y for y in x)   # in a try body the evaluation stays
+                    else:
+                        x = tuple(y for y in x if not is_dead(y))
+                if len(x) == 5 and x[0] == "try":
+                    out = ("try", strip(x[1], bool(x[2])), strip(x[2], in_try), strip(x[3], in_try), strip(x[4], in_try))
+                else:
+                    out = tuple(strip(y, in_try) for y in x)
                 if out and all(isinstance(y, tuple) for y in out):
-                    out = tuple(y for y in out if not (len(y) == 4 and y[0] == "if" and y[2] == () and y[3] == ()))
+                    empty_if = lambda y: len(y) == 4 and y[0] == "if" and y[2] == () and y[3] == ()   # noqa: E731
+                    out = tuple(("eval", y[1]) if (empty_if(y) and in_try) else y for y in out if not (empty_if(y) and not in_try))
                 return out
             return x
         effs = strip(effs)
